@@ -14,6 +14,21 @@ MODULES = {"os", "re", "json", "shutil", "time", "portalocker", "pd", "pandas", 
            "defusedxml", "argparse", "logging", "random", "string"}
 
 
+def _index_consts(idx):
+    """the uninterpreted constants of an index term (k, or k inside f(k)): the bound variables of the comprehension body"""
+    out, todo, seen = [], [idx], set()
+    while todo:
+        t = todo.pop()
+        if t.get_id() in seen:
+            continue
+        seen.add(t.get_id())
+        if z3.is_const(t) and t.decl().kind() == z3.Z3_OP_UNINTERPRETED:
+            out.append(t)
+        elif z3.is_app(t):
+            todo.extend(t.children())
+    return out
+
+
 def _has_ite(t):
     """an if-then-else inside a term makes it inadmissible as a quantifier pattern"""
     todo, seen = [t], set()
@@ -717,6 +732,8 @@ class AccessMixin:
 
         def at(idx):
             self.push_scope()
+            bound = [c for c in _index_consts(idx)]
+            ctx.bound_vars = getattr(ctx, "bound_vars", []) + bound
             try:
                 self.bind(g.target, elem_at(idx))
                 saved = ctx.spec
@@ -726,6 +743,7 @@ class AccessMixin:
                 finally:
                     ctx.spec = saved
             finally:
+                ctx.bound_vars = ctx.bound_vars[:len(ctx.bound_vars) - len(bound)]
                 self.pop_scope()
         k, j = z3.Int(ctx.fresh_name("k")), z3.Int(ctx.fresh_name("j"))
         key_k, val_k = at(k)
@@ -859,6 +877,8 @@ class AccessMixin:
 
         def body_at(idx):
             self.push_scope()
+            bound = [c for c in _index_consts(idx)]
+            ctx.bound_vars = getattr(ctx, "bound_vars", []) + bound
             try:
                 self.bind(g.target, elem_at(idx))
                 saved = ctx.spec
@@ -870,6 +890,7 @@ class AccessMixin:
                     ctx.spec = saved
                 return (z3.And(*conds) if conds else z3.BoolVal(True)), val
             finally:
+                ctx.bound_vars = ctx.bound_vars[:len(ctx.bound_vars) - len(bound)]
                 self.pop_scope()
         c_j, v_j = body_at(f(k))
         ety = ctx.type_of(v_j)
